@@ -178,6 +178,7 @@ pub struct CoordState {
     pub plans: Vec<Option<PlanInfo>>,
     pub sent: u64,
     pub old_requests: Vec<(u32, Vec<u8>)>,
+    pub crash_requested: bool,
 }
 
 pub struct ReplicaState {
@@ -309,6 +310,7 @@ impl<'a> World<'a> {
             plans: (0..n_inputs).map(|_| None).collect(),
             sent: 0,
             old_requests: vec![],
+            crash_requested: false,
         };
         Ok(World {
             sc,
@@ -533,7 +535,6 @@ impl<'a> World<'a> {
         self.coord.plans = (0..self.env.inputs.len()).map(|_| None).collect();
         self.coord.extracted = None;
         self.stats.probe("coord_restart");
-        self.final_memory.retain(|k, _| !k.0.starts_with("coord:"));
         let bytes = self.coord.persisted.clone();
         self.coord.psbt = bytes.and_then(|b| Psbt::deserialize(&b).ok());
         // re-parse descriptors from their strings: must reproduce the same scriptPubKeys
@@ -974,7 +975,15 @@ impl<'a> World<'a> {
             input: (0..n)
                 .map(|i| TxIn { previous_output: self.env.inputs[i].outpoint, script_sig: ScriptBuf::new(), sequence: Sequence(seqs[i]), witness: Witness::new() })
                 .collect(),
-            output: vec![TxOut { value: Amount::from_sat(total.saturating_sub(2000)), script_pubkey: self.env.dest_spk.clone() }],
+            output: {
+                let mut o = vec![TxOut { value: Amount::from_sat(total.saturating_sub(2000)), script_pubkey: self.env.dest_spk.clone() }];
+                // a change output paying back to the first descriptor (exercises the output updater)
+                if self.dec.choose(&format!("change{}", ep), 3) == 1 && !self.env.inputs[0].foreign {
+                    o[0].value = Amount::from_sat(total.saturating_sub(2000) / 2);
+                    o.push(TxOut { value: Amount::from_sat(total.saturating_sub(2000) / 2), script_pubkey: self.env.inputs[0].spk.clone() });
+                }
+                o
+            },
         };
         let mut psbt = match Psbt::from_unsigned_tx(tx) {
             Ok(p) => p,
@@ -990,8 +999,32 @@ impl<'a> World<'a> {
                     psbt.inputs[i].non_witness_utxo = Some(ic.fund_tx.clone());
                 }
             }
-            if self.sc.knobs.psbt_sighash_all && !matches!(ic.kind, OutKind::TrKey | OutKind::TrScript) {
+            let taproot = matches!(ic.kind, OutKind::TrKey | OutKind::TrScript);
+            if self.sc.knobs.psbt_sighash_all && !taproot {
                 psbt.inputs[i].sighash_type = Some(bitcoin::EcdsaSighashType::All.into());
+            }
+            // other sighash types, announced in the PSBT so that signers follow them
+            let sv = self.dec.choose(&format!("sighash{}:{}", ep, i), 16);
+            if sv >= 11 && (i < psbt.unsigned_tx.output.len() || !matches!(sv, 12 | 15)) {
+                use bitcoin::{EcdsaSighashType as E, TapSighashType as T};
+                psbt.inputs[i].sighash_type = Some(if taproot {
+                    match sv {
+                        11 => T::All.into(),
+                        12 => T::Single.into(),
+                        13 => T::None.into(),
+                        14 => T::AllPlusAnyoneCanPay.into(),
+                        _ => T::SinglePlusAnyoneCanPay.into(),
+                    }
+                } else {
+                    match sv {
+                        11 => E::AllPlusAnyoneCanPay.into(),
+                        12 => E::Single.into(),
+                        13 => E::None.into(),
+                        14 => E::NonePlusAnyoneCanPay.into(),
+                        _ => E::SinglePlusAnyoneCanPay.into(),
+                    }
+                });
+                self.stats.probe("non_default_sighash");
             }
         }
         // updater role
@@ -1001,6 +1034,9 @@ impl<'a> World<'a> {
             }
             let use_plan_update = plans[i].is_some() && self.dec.choose(&format!("upd{}:{}", ep, i), 3) == 1;
             monitors::update_with_monitors(self, &mut psbt, i, if use_plan_update { plans[i].as_ref().map(|p| &p.plan) } else { None });
+        }
+        if psbt.unsigned_tx.output.len() == 2 {
+            monitors::update_output_with_monitors(self, &mut psbt, 1, 0);
         }
         self.coord.plans = plans;
         if self.sc.knobs.serde_roundtrip {
@@ -1065,6 +1101,16 @@ impl<'a> World<'a> {
         let all_final = monitors::finalize_with_monitors(self, "coord", &mut psbt, v);
         // persist after finalisation steps (crash points fall between inputs via per-input variants)
         self.coord.persisted = Some(psbt.serialize());
+        if self.coord.crash_requested {
+            // crashed between two inputs: only the persisted bytes survive
+            self.coord.crash_requested = false;
+            self.coord.up = false;
+            self.coord.psbt = None;
+            let back = 600 * (1 + self.dec.choose(&format!("crashdur:between{}", self.stats.attempts), 4));
+            self.schedule(self.now + back, Ev::Restart(Actor::Coord));
+            self.logev("coord", "crash-between-inputs", &[]);
+            return;
+        }
         if all_final && !self.violated() {
             if let Some(tx) = monitors::extract_with_monitors(self, "coord", &psbt) {
                 self.coord.extracted = Some(tx.clone());
